@@ -17,6 +17,10 @@ PROGS = {progs!r}
 
 def core_batch(bits):
     return c08lib.check_batch(PROGS, bits)
+
+
+def core_vbatch(pvi):
+    return c08lib.check_batch(PROGS, [], pvi)
 '''
 
 
@@ -57,6 +61,12 @@ def plan(tier, seed, workdir):
         body += hgen.harness('batch', 'bits: List[bool]', [f'len(bits) <= {maxbits}'])
         path = hgen.write_module(workdir, f'c08_b{i // bsize:04d}', body)
         hgen.ch_tasks(p, path, 'batch', timeout, twin_timeout=120, est=60, family='conditional lists', first=repr(sym[i]), n=len(sym[i:i + bsize]))
+    vprogs = c08lib.value_programs(3 if tier == 'quick' else 4)
+    for i in range(0, len(vprogs), 80):
+        body = CORE.format(progs=vprogs[i:i + 80])
+        body += hgen.harness('vbatch', 'pvi: int', ['0 <= pvi < 13'], core_call='core_vbatch(pvi)')
+        path = hgen.write_module(workdir, f'c08_v{i // 80:03d}', body)
+        hgen.ch_tasks(p, path, 'vbatch', timeout, twin_timeout=120, est=60, family='lists whose jump conditions are host values of any type', n=len(vprogs[i:i + 80]))
     chunk = 4000
     for lo in range(0, len(conc), chunk):
         p.add({'kind': 'native', 'id': f'native_{lo}', 'module': 'vf.props.c08', 'fn': 'native_sweep',
